@@ -60,7 +60,7 @@ P = {
          "Exploration: all values < 2^21, every length boundary, extremes, random; every terminated byte string of length <= 3 exhaustively for completeness and uniqueness.",
          "Trusted: reference VByte from the module documentation.", "6/C18"),
  "C19": ("differential testing across 8 builds (features x profiles): per-case observation digests must be identical; exhaustive dirty-bit sweep under `checks`",
-         "Exploration: the C01-C08/C12 generators with clean arguments replayed in every build and compared case by case; write_bits(v,n) for all n and every single stray bit position.",
+         "Exploration: the quick generators of C01-C08, C10-C15, C18 and C20 with clean arguments replayed in every build and compared case by case; write_bits(v,n) for all n and every single stray bit position.",
          "Trusted: the release/default build is pinned to the model by the other checks.", "6/C19"),
  "C20": ("PBT of monotonicity and exact integer Kraft sums; synthetic step functions with evaluation-count budget for the change-point iterator",
          "Exploration: all values < 2^16/2^20 for every code x parameter, neighbourhoods of every power of two, random pairs; iterator on every library length function and on synthetic monotone step functions (incl. constant, steps beyond 2^63) with a deterministic non-termination detector.",
